@@ -1,4 +1,5 @@
 import PkgModel.Specifier
+import PkgModel.Spec.Admits
 /-! driver operations for the specifier model -/
 namespace DriverSpec
 open Py V S
@@ -85,8 +86,28 @@ def opCanon : List String → String
     | none => "bad-arg"
   | _ => "bad-op"
 
+/-- reference semantics: `s.spec.admits clause candidate` = `Pep440.admits` on the parsed structures -/
+def opAdmits : List String → String
+  | [a, c] => match decS a, decS c with
+    | some s, some cs => (match parseSpec s with
+      | none => "err InvalidSpecifier"
+      | some sp =>
+        match scan cs with
+        | none => "raw InvalidVersion"
+        | some cv =>
+          if sp.op == .arbitrary then
+            encB (Pep440.admits sp.op ⟨0, [], none, none, none, none⟩ false sp.ver cv)
+          else
+            let wild := (sp.op == .eq || sp.op == .ne) && endsWith sp.ver [46, 42]
+            let vtext := if wild then sp.ver.take (sp.ver.length - 2) else sp.ver
+            match scan vtext with
+            | none => "raw InvalidVersion"
+            | some v => encB (Pep440.admits sp.op v wild sp.ver cv))
+    | _, _ => "bad-arg"
+  | _ => "bad-op"
+
 def ops : List (String × (List String → String)) :=
-  [ ("spec.parse", opParse), ("spec.pre", opPre), ("spec.contains", opContains), ("spec.filter", opFilter),
+  [ ("s.spec.admits", opAdmits), ("spec.parse", opParse), ("spec.pre", opPre), ("spec.contains", opContains), ("spec.filter", opFilter),
     ("spec.split", opSplit), ("spec.pad", opPad), ("spec.canon", opCanon) ]
 
 end DriverSpec
